@@ -1288,6 +1288,17 @@ class Interp:
             if nm is not None and nm in env and isinstance(env[nm], (list, dict, set, bytearray)) and nm not in custom \
                     and nm not in getattr(spec, 'abstracts', ()):
                 raise Unsupported(f'loop at L{s.lineno} mutates the container {nm!r} but its specification has no abstraction (havoc) for it')
+            if nm is not None and nm in env and not isinstance(env[nm], (int, str, bytes, bool, type(None))) and not is_sym(env[nm]):
+                # aliasing: the havoc replaces the VARIABLE by a fresh abstract value; another local that refers to the same
+                # object (directly or inside a tuple / list) would keep the value it had at loop entry
+                obj = env[nm]
+                for other, val in list(env.items()):
+                    if other == nm or other.startswith('__'):
+                        continue
+                    inner = list(val) if isinstance(val, (tuple, list)) else [val]
+                    if any(x is obj for x in inner):
+                        raise Unsupported(f'loop at L{s.lineno} mutates {nm!r} in place while {other!r} refers to the same object '
+                                          f'(aliasing is not tracked through a loop specification)')
         which = run.choose([('body', True), ('exit', True)], f'loop{getattr(s, "_ordinal", "")}')
         spec.havoc(self, env, g, targets)
         if is_for:
